@@ -325,3 +325,28 @@ def extra_stage(tier, seed, work):
                               'case': c, 'kind': 'failing-input', 'found_input': True,
                               'replay_cmd': 'cd /verif && ./check C13 --replay %r' % c} for c, what in bad[:3]]
     return res
+
+
+CLAIM = {
+    'text': 'Coq theorems (Properties_C13.v), for every value of all eight integer types (bit patterns below 2^N, '
+            'N in 8/16/32/64, signed and unsigned, including 0 and the minima) and every group character: '
+            'int2string returns exactly the canonical decimal text; grouped_int2string that text with the group '
+            'character at every fourth position from the right and never next to the sign; the buffer variants '
+            'write text + NUL at the start of the caller\'s buffer, leave every other byte unchanged, return the '
+            'text length and make no store outside a buffer with room for text + NUL; stringTo<T> of the text gives '
+            'the value back. The digit-count decision trees and the fall-through switches are regenerated from the '
+            'C++ source on every run (translator) and enter the proofs through two verified checkers evaluated by '
+            'vm_compute; the wrappers, the tag dispatch and stringTo are a hand-written model tied by the '
+            'correspondence check (all 2^8 and 2^16 patterns, decade / power-of-two boundaries and random patterns '
+            'of the wide types, all 256 group characters, ASan+UBSan). The thorough tier additionally compares all '
+            '2^32 patterns of both 32-bit types against snprintf on the implementation.',
+    'note': 'trusted: Coq kernel, the translator\'s parser, the IR semantics, extraction (ExtrOcamlBasic), the '
+            'hand-written wrapper/stringTo model (validated by correspondence on every run), libc snprintf in the '
+            'sweep. -value of INT32_MIN / INT64_MIN in intNnegToString is formally a signed overflow; it produces '
+            'the correct text with this compiler and is modelled as negation in the unsigned type (UBSan\'s '
+            'signed-integer-overflow check is off in the harness for that reason) - observation, not a violation.',
+    'technique': 'translator + verified checkers (interval checker for the decision trees, symbolic trace checker for '
+                 'the switches) + Coq proofs over the type\'s full range; model/implementation correspondence, '
+                 'exhaustive for the 8/16-bit types; exhaustive 32-bit sweep of the implementation in the thorough tier',
+    'design_ref': 'DESIGN.md section 5, C13',
+}
